@@ -530,26 +530,55 @@ func RuleN1N2(c *Ctx) {
 	single := c.P.Fn("banderwagon", "Element", "mapToBaseField")
 	wrap := c.P.Fn("banderwagon", "Element", "MapToScalarField")
 	batch := c.P.Fn("banderwagon", "", "BatchMapToScalarField")
-	if single == nil || wrap == nil || batch == nil {
-		c.Unresolved("N1", "banderwagon mapToBaseField / MapToScalarField / BatchMapToScalarField")
+	if wrap == nil || batch == nil {
+		c.Unresolved("N1", "banderwagon MapToScalarField / BatchMapToScalarField")
 		return
 	}
-	c.Saw(core.FnName(single))
+	// the quotient is formed in the helper mapToBaseField, or directly in MapToScalarField when there is no helper
+	divFn := single
+	if divFn == nil {
+		divFn = wrap
+	}
+	c.Saw(core.FnName(divFn))
 	c.Saw(core.FnName(wrap))
 	c.Saw(core.FnName(batch))
-	divs := callsTo(single, gfr, "Element", "Div")
-	ok := len(divs) == 1 && len(core.CallsIn(single)) == 1
+	divs := callsTo(divFn, gfr, "Element", "Div")
+	ok := len(divs) == 1
 	if ok {
 		ok = strings.HasSuffix(core.PathOf(divs[0].Call.Args[1]), "p.inner.X") && strings.HasSuffix(core.PathOf(divs[0].Call.Args[2]), "p.inner.Y")
-		for _, r := range core.Returns(single) {
-			if u, isLoad := r.Results[0].(*ssa.UnOp); !isLoad || u.X != divs[0].Call.Args[0] {
+		if single != nil {
+			if len(core.CallsIn(single)) != 1 {
+				ok = false
+			}
+			for _, r := range core.Returns(single) {
+				if u, isLoad := r.Results[0].(*ssa.UnOp); !isLoad || u.X != divs[0].Call.Args[0] {
+					ok = false
+				}
+			}
+		} else {
+			// the quotient cell is what gets encoded
+			enc := callsTo(wrap, "bandersnatch/fp", "", "BytesLE")
+			same := false
+			if len(enc) == 1 {
+				a := enc[0].Call.Args[0]
+				if u, isLoad := a.(*ssa.UnOp); isLoad && u.Op == token.MUL && u.X == divs[0].Call.Args[0] {
+					same = true
+				}
+				if a == divs[0].Call.Args[0] {
+					same = true
+				}
+			}
+			if !same {
 				ok = false
 			}
 		}
 	}
-	c.Check(ok, "N1", "mapToBaseField:X/Y", single.Pos(), "the single map-to-field is not Div(X, Y) of the element's own coordinates (the specification maps to x/y)", "res.Div(&p.inner.X, &p.inner.Y)")
+	c.Check(ok, "N1", "mapToBaseField:X/Y", divFn.Pos(), "the single map-to-field is not Div(X, Y) of the element's own coordinates (the specification maps to x/y)", "res.Div(&p.inner.X, &p.inner.Y)")
 	// no Z read anywhere
 	for _, fn := range []*ssa.Function{single, wrap, batch} {
+		if fn == nil {
+			continue
+		}
 		readsZ := false
 		core.AllInstrs(fn, func(i ssa.Instruction) {
 			if fa, isFA := i.(*ssa.FieldAddr); isFA && strings.HasSuffix(core.PathOf(fa), ".inner.Z") {
@@ -790,8 +819,15 @@ func RuleZ1(c *Ctx) {
 				if k, isConst := core.ConstBool(st.Val); isConst && !k && l == nil {
 					return // initialisation
 				}
+				// flag[i] = src[i].IsZero(): the flag is the zero test itself
+				if call, isCall := st.Val.(*ssa.Call); isCall && l != nil && core.IsMethod(core.Callee(call.Common()), "fr", "Element", "IsZero") {
+					if idx, isSrc := isSrcElem(call.Call.Args[0]); isSrc && idx == ia.Index {
+						c.OK("Z1", key, st.Pos(), "the flag is assigned the zero test of the same index")
+						return
+					}
+				}
 				if !isK || !b || l == nil || ze == nil {
-					c.Bad("Z1", key, st.Pos(), "the skip flag is written with something other than `true` on the zero edge of the same index")
+					c.Bad("Z1", key, st.Pos(), "the skip flag is written with something other than `true` on the zero edge of the same index (or the zero test of that index itself)")
 					return
 				}
 				hdr := l.Header.Instrs[len(l.Header.Instrs)-1]
